@@ -66,6 +66,13 @@ class LockFlow(object):
                     r = n.receiver()
                     if r is not None and A.strip_casts(r).get('d') in self.guards_by_decl():
                         self.events[(blk.b, idx)] = ('kill', A.strip_casts(r)['d'])
+                elif n['k'] == 'CXXMemberCallExpr' and re.search(r'(^|::)(Mutex|ReaderWriterMutex)::(Lock|LockReadOnly|LockReadWrite)$', n.get('q') or '') and n.receiver() is not None:
+                    # an explicit X.Lock(): a pseudo guard, one per call site (so that two separate sections under the same mutex remain distinguishable)
+                    gid = ('explicit', n['i'])
+                    self.guards[gid] = lock_key(n.receiver())
+                    self.events[(blk.b, idx)] = ('gen', gid)
+                elif n['k'] == 'CXXMemberCallExpr' and re.search(r'(^|::)(Mutex|ReaderWriterMutex)::(Unlock|UnlockReadOnly|UnlockReadWrite)$', n.get('q') or '') and n.receiver() is not None:
+                    self.events[(blk.b, idx)] = ('killkey', lock_key(n.receiver()))
                 elif n['k'] == 'CXXMemberCallExpr' and (n.get('q') or '').split('::')[-1] in ('lock',):
                     r = n.receiver()
                     if r is not None and A.strip_casts(r).get('d') in self.guards_by_decl():
@@ -88,6 +95,9 @@ class LockFlow(object):
             if ev:
                 if ev[0] == 'gen':
                     held.add(ev[1])
+                elif ev[0] == 'killkey':
+                    for g_ in [g_ for g_ in held if isinstance(g_, tuple) and g_[0] == 'explicit' and self.guards.get(g_) == ev[1]]:
+                        held.discard(g_)
                 else:
                     held.discard(ev[1])
         return held
